@@ -225,7 +225,7 @@ def run(ctx):
     if rm:
         # on the temporary branch the remove is unconditional apart from the name test
         tg = cl.gate_edges(lambda atom, pol: model.strip_targs(cl.ref_of(atom) or '').endswith('file::file_temporary_') and pol is True)
-        ng = q.call_gate(cl, lambda i: q.short_of(cl.callee(i)) == 'empty', True)
+        ng = q.empty_gate(cl)
         okp = True
         for (b, s, lab, tag) in tg:
             reach = cl.reachable_blocks(start=s, cut_edges=ng, cut_blocks=q.blocks_of(cl, rm))
